@@ -84,7 +84,7 @@ func pickSome(r *rand.Rand, u []uint64, max int) []uint64 {
 var (
 	mutUnary = []string{"add", "add", "remove", "checkedadd", "clear"}
 	binary   = []string{"or", "and", "andnot", "xor"}
-	reads    = []string{"contains", "card", "slice", "each", "clone", "eachstop", "snapwalk"}
+	reads    = []string{"contains", "card", "slice", "each", "clone", "eachstop", "snapwalk", "eachpanic"}
 )
 
 func gen(r *rand.Rand) WL {
@@ -146,6 +146,10 @@ func gen(r *rand.Rand) WL {
 		for i := range w.Provs {
 			if r.IntN(3) > 0 {
 				w.Provs[i].Run = []uint64{starts[r.IntN(len(starts))], uint64([]int{4095, 4096, 4097, 4097, 5000, 5000, 8193, 8193, 12291, 66000}[r.IntN(10)]), uint64([]int{1, 1, 2, 3, 17}[r.IntN(5)])}
+				if r.IntN(30) == 0 {
+					// a very large sparse set (more than 1 MiB of roaring storage)
+					w.Provs[i].Run = []uint64{starts[r.IntN(len(starts))], 600000, 16}
+				}
 			}
 		}
 	}
@@ -278,6 +282,9 @@ func apply(s set, i in) outp {
 		o.N = uint64(len(s))
 	case "slice", "each", "clone":
 		o.S = s.sorted()
+	case "eachpanic":
+		// the delegate panics on the first value and the caller recovers: nothing is returned, and the
+		// provider must stay usable (later operations in the history show that)
 	case "eachstop":
 		// the delegate asks to stop after V[0]%7+1 values: it must be called exactly min(limit, |S|) times
 		o.N = min(uint64(i.V[0]%7+1), uint64(len(s)))
@@ -409,6 +416,11 @@ func doOp[T uint32 | uint64](p cardinality.Duplex[T], o Op, operand cardinality.
 		var got []T
 		p.Each(func(v T) bool { got = append(got, v); return true })
 		r.S = sortedU64(got)
+	case "eachpanic":
+		func() {
+			defer func() { recover() }()
+			p.Each(func(T) bool { panic("delegate failed") })
+		}()
 	case "eachstop":
 		limit := int(o.V[0]%7 + 1)
 		seen := map[T]bool{}
